@@ -33,7 +33,7 @@ macro "nc_tac" : tactic => `(tactic|
   | exact finish_nc _ _ _
   | (simp [NC]; done))
 
-theorem actGroup_nc (st : State) (r : Request) (g : String) : NC (actGroup st r g) := by
+theorem actGroup_nc (fx : Fixes) (st : State) (r : Request) (g : String) : NC (actGroup fx st r g) := by
   unfold actGroup; nc_tac
 theorem actUser_nc (st : State) (r : Request) (g : String) (w : Who) : NC (actUser st r g w) := by
   unfold actUser; nc_tac
@@ -77,7 +77,7 @@ theorem act_nc (fx : Fixes) (st : State) (r : Request) (a : Action)
   case notFoundPage => exact done_nc _ _
   case stats => nc_tac
   case listGroups => nc_tac
-  case group g => exact actGroup_nc _ _ _
+  case group g => exact actGroup_nc _ _ _ _
   case listUsers g => nc_tac
   case user g w => exact actUser_nc _ _ _ _
   case password g w => exact actPassword_nc _ _ _ _
